@@ -295,11 +295,47 @@ theorem truncation_partial (isClient : Bool) (rng : Rng) (ms : List Rfc6455.Msg)
   rw [hr]
   exact ⟨by rw [← hall, ← h2], h3, h4⟩
 
-/-- the general statement for a cut at *any* offset of a conversation (also inside a continuation frame):
-    the non-empty results are the payloads of the messages wholly before the cut, followed by at most one
-    more result, a prefix of the payload of the message being cut (the fragments already received).
-    Not yet a theorem (the cases "cut inside a continuation frame" are validated by the correspondence
-    check on every offset of short streams); `truncation_partial` + `hostile_safe` are the proved part. -/
+/-- **Cut inside a message after its first frame** — inside a continuation frame, or inside a control
+    frame injected between fragments, at any offset: the complete messages before it are delivered intact,
+    once, in order; the interrupted message yields at most one further result, namely the concatenation of
+    its fragments that arrived whole (`m.first` and `t1`; nothing of the frame that was cut); the
+    connection ends closed. -/
+theorem truncation_inside_message (isClient : Bool) (rng : Rng) (ms : List Rfc6455.Msg) (m : Rfc6455.Msg)
+    (t1 : List Rfc6455.Frag) (cs : List Rfc6455.Ctl) (fin : Bool) (op : Nat) (hop : op < 16) (key : Option Rfc6455.Key)
+    (p : List UInt8) (k : Nat)
+    (hfit : ∀ x ∈ ms, MsgFits x) (hne : ∀ x ∈ ms, x.payload ≠ []) (hfirst : FragFits m.first) (ht1 : ∀ f ∈ t1, FragFits f)
+    (htot : m.first.payload.length + (t1.flatMap (·.payload)).length ≤ 2147483632)
+    (hcs : CtlsFit cs) (hp : Fits p) (hk0 : 0 < k) (hk : k < (Rfc6455.frame fin op key p).length) :
+    let r := run { isClient := isClient, rng := rng,
+                   inp := ms.flatMap Rfc6455.Msg.bytes ++ (Rfc6455.ctlBytes m.first.before ++
+                     (Rfc6455.frame false (msgOp m) m.first.key m.first.payload ++ (Rfc6455.openBytes t1 ++
+                       (Rfc6455.ctlBytes cs ++ (Rfc6455.frame fin op key p).take k)))) }
+    r.1.filter (· ≠ []) = ms.map (·.payload) ++ [m.first.payload ++ t1.flatMap (·.payload)].filter (· ≠ []) ∧
+    r.2.closed = true ∧ r.2.fault = false := by
+  intro r
+  obtain ⟨extra, c', h1, h2, h3, h4⟩ := receiveAll_cut_inside ms m t1 cs fin op hop key p k
+    { isClient := isClient, rng := rng,
+      inp := ms.flatMap Rfc6455.Msg.bytes ++ (Rfc6455.ctlBytes m.first.before ++
+        (Rfc6455.frame false (msgOp m) m.first.key m.first.payload ++ (Rfc6455.openBytes t1 ++
+          (Rfc6455.ctlBytes cs ++ (Rfc6455.frame fin op key p).take k)))) }
+    ⟨rfl, rfl⟩ hfit hfirst ht1 htot hcs hp hk0 hk rfl
+  have hr : r = (extra, c') := h1
+  have hall : (ms.map (·.payload)).filter (· ≠ []) = ms.map (·.payload) := by
+    apply List.filter_eq_self.mpr
+    intro q hq
+    obtain ⟨x, hx, rfl⟩ := List.mem_map.mp hq
+    simpa using hne x hx
+  rw [hr]
+  exact ⟨by rw [h2, hall], h3, h4⟩
+
+/-- the single statement for a cut at *any* byte offset `k` of a conversation: the non-empty results are the
+    payloads of the messages wholly before the cut, followed by at most one more result, a prefix of the
+    payload of the message being cut.  Every cut position strictly inside a frame is proved above
+    (`truncation_partial`: first frame of a message or a control frame between messages;
+    `truncation_inside_message`: any later frame of a message), cuts between messages are `messages_intact`
+    on the shorter conversation.  Not proved: the arithmetic step "every `k` is one of these positions", and
+    a cut exactly at a frame boundary inside a message (validated by the correspondence check on every
+    offset of short streams; `hostile_safe` covers it for safety). -/
 def truncation_full : Prop :=
   ∀ (isClient : Bool) (rng : Rng) (ms : List Rfc6455.Msg) (trailing : List Rfc6455.Ctl) (k : Nat),
     (∀ m ∈ ms, MsgFits m) → CtlsFit trailing → (∀ m ∈ ms, m.payload ≠ []) →
